@@ -177,13 +177,36 @@ func parent() int {
 				found[key] = &f
 			}
 		}
-		if len(tot.Samples) < 3 {
-			tot.Samples = append(tot.Samples, sf.Samples...)
-		}
+		tot.Samples = append(tot.Samples, sf.Samples...)
 		tot.Notes = append(tot.Notes, sf.Notes...)
 	}
-	if len(tot.Samples) > 3 {
-		tot.Samples = tot.Samples[:3]
+	// keep three samples, preferring executions that took deviations (one plain execution at most)
+	{
+		var plain, dev []any
+		for _, s := range tot.Samples {
+			if m, ok := s.(map[string]any); ok {
+				if ch, ok := m["choices"].(string); ok && ch != "" {
+					dev = append(dev, s)
+					continue
+				}
+			}
+			plain = append(plain, s)
+		}
+		var keep []any
+		if len(plain) > 0 {
+			keep = append(keep, plain[0])
+		}
+		for _, s := range dev {
+			if len(keep) < 3 {
+				keep = append(keep, s)
+			}
+		}
+		for _, s := range plain[min(1, len(plain)):] {
+			if len(keep) < 3 {
+				keep = append(keep, s)
+			}
+		}
+		tot.Samples = keep
 	}
 
 	// classify
